@@ -75,8 +75,18 @@ def run_transform(ctx):
         case = {'cfg': cfg, 'kind': kind, 'n': n}
         ctx.seen({'stream': 'transform', **case, 'i': i}, True)
         ctx.count('transform.kind', kind)
-        with core.quiet():
-            G = PGMCompiler(**cfg)
+        warp = rng.random() < 0.25
+        ctx.count('transform.warp', 'on' if warp else 'off')
+        with gcommon.Scratch() as sd, core.quiet():
+            if warp:
+                # a tilted, slightly bowed surface measured on a 4 x 3 grid covering the query range
+                with open(sd / 'POS.txt', 'w') as fh:
+                    for gx in (-6.0, -2.0, 2.0, 6.0):
+                        for gy in (-6.0, 0.0, 6.0):
+                            fh.write(f'{gx} {gy} {0.002 * gx - 0.001 * gy + 0.0005 * gx * gx}\n')
+                G = PGMCompiler(warp_flag=True, samplesize=(12, 12), **cfg)
+            else:
+                G = PGMCompiler(**cfg)
             out1 = np.array(G.transform_points(*args))
             changed = any(not np.array_equal(np.asarray(a), s) for a, s in zip(args, snap)) or not np.array_equal(base, whole)
             shares = any(isinstance(a, np.ndarray) and np.shares_memory(out1, a) for a in args)
@@ -114,16 +124,37 @@ def run_write(ctx):
                 if rep == 0 and rng.random() < 0.4 and pts.shape[1] > 2:
                     # a rejected matrix in between (feed below the guard after the start) must leave no trace
                     badm = pts.copy()
-                    badm[3][rng.randrange(1, pts.shape[1])] = 0.0
+                    col = rng.randrange(1, pts.shape[1])
+                    what = rng.choice(['zero', 'negative', 'below-resolution', 'nan-feed', 'inf-coordinate', 'nan-coordinate'])
+                    if what == 'zero':
+                        badm[3][col] = 0.0
+                    elif what == 'negative':
+                        badm[3][col] = -2.0
+                    elif what == 'below-resolution':
+                        badm[3][col] = 0.4 * 10.0 ** -int(cfg['output_digits'])     # positive, but prints as F0.000
+                    elif what == 'nan-feed':
+                        badm[3][col] = float('nan')
+                    elif what == 'inf-coordinate':
+                        badm[rng.randrange(3)][col] = float('inf')
+                    else:
+                        badm[rng.randrange(3)][col] = float('nan')
+                    ctx.count('write.rejected', what)
                     a2, dw = len(G._instructions), G.dwell_time
+                    accepted = False
                     try:
                         G.write(badm)
+                        accepted = True
                     except ValueError:
                         pass
-                    if len(G._instructions) != a2 or G.dwell_time != dw or G._shutter_on:
+                    if accepted:
+                        blocks.append(['<accepted>'])
+                        blocks.append(['<accepted>'])
+                    elif len(G._instructions) != a2 or G.dwell_time != dw or G._shutter_on:
                         blocks.append(['<rejected write left traces>'])
         if not np.array_equal(pts, snap):
             ctx.fail('spec', 'write', case, 'write() modified the point matrix it was given', 'write-mutates')
+        elif len(blocks) > 4:
+            pass        # the matrix was accepted (e.g. a feed that still prints as non-zero): nothing to judge here, C10 judges values
         elif len(blocks) > 3:
             ctx.fail('spec', 'write', case, 'a rejected write() left instructions, dwell time or an open shutter behind', 'write-rejected-traces')
         elif blocks[0] != blocks[1] or blocks[1] != blocks[2]:
